@@ -559,6 +559,40 @@ let run_efi mo jo impl secs =
     List.iter (fun toks -> judge_search jo "C10" id c.c_eps data sentinel toks) lines
   | _ -> ()
 
+(* ---- CMP: CompressedPGMIndex ---- *)
+let run_cmp mo jo impl secs =
+  match secs with
+  | ("CMP" :: id :: _name :: kb :: eps :: epsrec :: fd :: _) :: _ ->
+    let kt = { kbits = zin kb; ksigned = false } in
+    let c = { c_kt = kt; c_eps = zin eps; c_epsrec = zin epsrec; c_fdouble = (fd = "1"); c_par = zi 1; c_avx512 = !avx512 } in
+    let data = List.map zin (nth_sec secs 1) and queries = List.map zin (nth_sec secs 2) in
+    pr mo "C %s\n" id;
+    (match compressed_build c data with
+     | Err e -> pr mo "B %s\n" (err_name e)
+     | Ok cp ->
+       if epsrec = "0" then pr mo "B ok\nN %s %s\n" (zout cp.cp_n) (zout cp.cp_first_key)
+       else pr mo "B ok\nN %s %s %s %s %s\n" (zout cp.cp_n) (zout cp.cp_first_key) (fr (frepr64 cp.cp_root_slope)) (zout cp.cp_root_intercept) (zout cp.cp_root_range);
+       pr mo "TB%s\n" (String.concat "" (List.map (fun s -> " " ^ fr (frepr64 s)) cp.cp_table));
+       List.iter (fun l ->
+         pr mo "LK%s\n" (String.concat "" (List.map (fun k -> " " ^ zout k) l.cl_keys));
+         pr mo "LM%s\n" (String.concat "" (List.map (fun k -> " " ^ zout k) l.cl_slopes_map));
+         pr mo "LI %s %s%s\n" (zout l.cl_offset) (zout l.cl_max)
+           (String.concat "" (List.mapi (fun i _ -> " " ^ (match cl_get_intercept l (zi i) with Ok v -> zout v | Err e -> err_name e)) l.cl_vals))) cp.cp_levels;
+       List.iter (fun q -> match compressed_search c cp q with
+         | Ok a -> pr mo "Q %s %s %s %s\n" (zout q) (zout a.a_pos) (zout a.a_lo) (zout a.a_hi)
+         | Err e -> pr mo "Q %s %s\n" (zout q) (err_name e)) queries);
+    (match Hashtbl.find_opt impl id with
+     | None -> ()
+     | Some lines ->
+       let sentinel = kmax kt in
+       judge_reject jo id lines "B" (ends_with_reserved kt data) "invalid_argument";
+       List.iter (function
+         | ["B"; "throw"; kind] when not (ends_with_reserved kt data) ->
+           judge jo "C08" id ("constructor threw " ^ kind ^ " on valid data n=" ^ string_of_int (List.length data) ^ " eps=" ^ eps) false
+         | _ -> ()) lines;
+       List.iter (fun toks -> judge_search jo "C08" id c.c_eps data sentinel toks) lines)
+  | _ -> ()
+
 (* ---- MAP: MappedPGMIndex ---- *)
 let hex_of_bytes (bs : z list) : string =
   let b = Buffer.create (2 * List.length bs) in
@@ -851,8 +885,9 @@ let () =
     | "capi" -> run_cix mo jo impl secs; run_cdy mo jo impl secs
     | "thr" -> run_thr mo jo impl secs
     | "own" -> run_own mo jo impl secs
+    | "cmp" -> run_cmp mo jo impl secs
     | "all" -> run_idx mo jo impl secs; run_seg mo jo impl secs; run_pla mo jo impl secs; run_dyn mo jo impl secs; run_bkt mo jo impl secs; run_efi mo jo impl secs;
-      run_map mo jo impl secs; run_mul mo jo impl secs; run_cix mo jo impl secs; run_cdy mo jo impl secs
+      run_map mo jo impl secs; run_mul mo jo impl secs; run_cix mo jo impl secs; run_cdy mo jo impl secs; run_cmp mo jo impl secs
     | _ -> failwith "unknown mode") (read_lines cases);
   Hashtbl.iter (fun prop (n, f) -> pr jo "JSUM %s %d %d\n" prop n f) jcount;
   close_out mo; close_out jo
